@@ -1,6 +1,6 @@
 (* C05 — property theorems only. Each is closed by `exact` of a lemma proved in Proofs/ (or a vm_compute witness). *)
 From JV Require Import Lib.Base Lib.Regex Model.TyVal Model.Scalar Model.Ty Model.TyLoader Model.C05Channels Model.C05History
-  Proofs.C05Proofs Proofs.C05JsonYaml Gen.C01Resolvers.
+  Model.C05Plain Proofs.C05Proofs Proofs.C05JsonYaml Proofs.C05PlainProofs Gen.C01Resolvers.
 
 (* The input channels differ only in whether a text or a loaded value enters the type check, in how often the
    check runs before the value is stored, and in letting None through unchecked.  Hence, for ANY type check C
@@ -60,6 +60,53 @@ Theorem C05_history_independent :
   forall (calls : list (list pitem)) (s : pstate), state_after s calls = s.
 Proof. exact history_independent. Qed.
 Print Assumptions C05_history_independent.
+
+(* Options declared with nargs (? * + N), choices and / or a plain callable type — the code of _check_value_key below its
+   type-hint branch, of _load_env_vars for list-valued options and of argparse's own value collection (Model/C05Plain.v):
+   for ANY element function E (the callable, or the type-hint check), any choices, any nargs, any tokens following the
+   option string, any environment text, any loader and any value: if the nargs pattern admits the number of tokens, the
+   check takes the tokens and what the environment text is loaded as for what it takes the value for, argparse's test of
+   the raw strings against the choices (type hints only) says what the test of the adapted values says, the check leaves
+   its own result alone and None is given only where admitted (plain_guard — the function the correspondence evaluates per
+   case), then environment, object / config document and config-via-environment store exactly what the command line
+   stores, or all reject. *)
+Theorem C05_plain_channels_agree :
+  forall (E : val -> ares) (typed hint rawchk : bool) (choices : list val) (na : nargs)
+         (yl : str -> lres) (toks : list str) (text : str) (v : val),
+    plain_guard E typed hint rawchk choices na yl toks text v = true ->
+    agree (via_plain_env E typed choices na yl text) (via_plain_argv E typed hint rawchk choices na toks) /\
+    agree (via_plain_object E typed choices na v) (via_plain_argv E typed hint rawchk choices na toks) /\
+    agree (via_plain_cfgenv E typed choices na v) (via_plain_argv E typed hint rawchk choices na toks).
+Proof. exact plain_channels_agree. Qed.
+Print Assumptions C05_plain_channels_agree.
+
+Example C05_plain_guard_satisfiable :
+  plain_guard (elem as_is w_yl PfPos) true false true [VInt 5; VInt 6; VInt 7] NPlus w_yl [[53]%N; [54]%N] [91;53;44;32;54;93]%N
+              (VList [VInt 5; VInt 6]) = true
+  /\ via_plain_argv (elem as_is w_yl PfPos) true false true [VInt 5; VInt 6; VInt 7] NPlus [[53]%N; [54]%N] = AOk (VList [VInt 5; VInt 6]).
+Proof. exact example_plain_guard. Qed.
+
+(* finding nargs-count-unchecked: without the count premise the statement is false — nargs=2 and ONE value: the command
+   line rejects (for every E, choices: plain_argv_counts), the object and environment channels store [5] *)
+Theorem C05_nargs_count_refuted :
+  exists (na : nargs) (toks : list str) (text : str) (v : val),
+    let E := elem as_is w_yl PfPos in
+    is_ok (via_plain_argv E true false true [] na toks) = false /\
+    via_plain_object E true [] na v = AOk v /\
+    via_plain_env E true [] na w_yl text = AOk v.
+Proof. exists (NNum 2), [[53]%N], [53]%N, (VList [VInt 5]). exact nargs_count_witness. Qed.
+
+(* finding typed-choices-raw-argv: without the raw-choices premise the statement is false — type=int, choices=[1, 2, 3],
+   setting 2: argparse tests the raw string, the command line rejects; object and environment store 2; without that test
+   (rawchk = false: fixes/C05-typed-choices-raw-argv.patch) the command line stores 2 as well *)
+Theorem C05_typed_choices_refuted :
+  exists (choices : list val) (toks : list str) (text : str) (v : val),
+    let E := elem as_is model_yload (PfHint TInt) in
+    is_ok (via_plain_argv E true true true choices NOne toks) = false /\
+    via_plain_argv E true true false choices NOne toks = AOk v /\
+    via_plain_object E true choices NOne v = AOk v /\
+    via_plain_env E true choices NOne model_yload text = AOk v.
+Proof. exists [VInt 1; VInt 2; VInt 3], [[50]%N], [50]%N, (VInt 2). exact typed_choices_witness. Qed.
 
 (* the hypotheses are satisfiable by non-trivial inputs *)
 Example C05_guard_satisfiable : guard (chk as_is ex_yl) (TList TInt) ex_text ex_val = true.
